@@ -33,7 +33,7 @@ def gen_cases(tier, seed):
     n = 16 if tier == "quick" else 240
     cases = []
     Akinds = ["zero", "uniform", "ramp", "osc", "uniform_float"]
-    Ikinds = ["integers", "decimal", "callable", "const", "pulse"]
+    Ikinds = ["integers", "decimal", "callable", "const", "pulse", "switch"]
     unit_sets = [("um", "mT", "uA"), ("nm", "uT", "nA"), ("mm", "T", "mA"), ("um", "uT", "mA"), ("nm", "mT", "uA"), ("um", "uT", "uA")]
     for k in range(n):
         nt = [2, 3, 4][k % 3]
@@ -63,10 +63,21 @@ def gen_cases(tier, seed):
             o["skip_time"] = 0.1 * o["solve_time"]
         if k % 8 == 5:
             case["solve_twice"] = True  # one TDGLSolver object, solve() called twice
+        if drive["currents"].get("kind") in ("callable", "pulse", "switch"):
+            drive["currents"]["form"] = ["function", "partial", "method", "object"][(k // 2) % 4]  # every kind of callable is a callable
         if k % 8 in (1, 6) and not case.get("remesh"):
             # the Device object was solved before with other options (pinning toggled), optionally moved in place and back
             case["history"] = ["used", "used_moved"][(k // 8) % 2 if k % 8 == 1 else 1 - (k // 8) % 2]
         cases.append(case)
+    nweak = 3 if tier == "quick" else 16
+    for k in range(nweak):
+        # weak bias (1e-9 .. 1e-6 of the natural scale) with nothing else driving the film: the injected current IS the flow scale
+        nt = [2, 3, 4][k % 3]
+        dev = zoo.gen_device(rng, n_terminals=nt, n_holes=0, probes=0, size="small")
+        o = S.base_options(rng, adaptive=bool(k % 2), steps=60)
+        o["terminal_psi"] = 0.0
+        drive = {"A": {"kind": "zero"}, "currents": S.current_spec(rng, dev, o, ["stair", "const", "switch"][k % 3], strength=float([1e-6, 1e-9, 1e-7][k % 3]))}
+        cases.append({"device": dev, "options": o, "drive": drive, "monitors": ["charge"], "weak": True, "cost": 8})
     return cases
 
 
@@ -160,6 +171,6 @@ def run_case(spec):
     if spec.get("remesh"):
         out.setdefault("counters", {})["remeshed_device_runs"] = 1
     if "classes" not in out:
-        out["classes"] = S.classes_of(spec) + (["remeshed"] if spec.get("remesh") else []) + (["thermalised"] if spec["options"].get("skip_time") else []) + (["solve_twice"] if spec.get("solve_twice") else [])
+        out["classes"] = S.classes_of(spec) + (["remeshed"] if spec.get("remesh") else []) + (["thermalised"] if spec["options"].get("skip_time") else []) + (["solve_twice"] if spec.get("solve_twice") else []) + (["weak_bias"] if spec.get("weak") else []) + (["callable_form=" + spec["drive"]["currents"]["form"]] if spec["drive"].get("currents", {}).get("form") else [])
     out["nontrivial"] = out["counters"].get("states_with_injection", 0) >= 10
     return out
